@@ -189,14 +189,20 @@ func Explode(dstDir string, inputShard string) error {
 		}
 	}
 
-	// best effort rename shards.
+	// best effort rename shards. A shard that could not be renamed is lost (the
+	// compound shard is gone and the deferred cleanup removes the tmp file), so
+	// the caller must learn about it.
+	var renameErr error
 	for tmpFn, dstFn := range exploded {
 		if err := os.Rename(tmpFn, dstFn); err != nil {
 			log.Printf("explode: rename failed: %s", err)
+			if renameErr == nil {
+				renameErr = fmt.Errorf("zoekt.Explode: rename failed: %w", err)
+			}
 		}
 	}
 
-	return nil
+	return renameErr
 }
 
 type shardBuilderFunc func(ib *ShardBuilder)
